@@ -16,6 +16,7 @@ import StimModel.Model.Noise
 import StimModel.Model.Text
 import StimModel.Model.DemText
 import StimModel.Model.Record
+import StimModel.Model.Amps
 /-! Line-protocol dispatcher: one request line in, one answer line out. -/
 namespace Stim.Driver
 open Stim Stim.Wire
@@ -630,6 +631,63 @@ def recordRun (toks : List String) : String :=
             | none => "bad-request"
           else "bad-request"
       go (Stim.Record.MRec.init m) ops []
+  | _ => "bad-request"
+
+/-- all Pauli letter strings on `n` qubits -/
+def allLetters : Nat → List (List P1)
+  | 0 => [[]]
+  | n+1 => (allLetters n).flatMap fun ps => [P1.I, P1.X, P1.Y, P1.Z].map fun l => l :: ps
+
+open Stim.Amps in
+/-- `amps unitary <little> <tableau> <row>*`        : is the matrix (a scalar multiple of) the tableau's unitary?
+    `amps state <little> <n> <circuit> <vec>`        : is the vector the output state of the unitary circuit (up to a scalar)?
+    `amps simstate <little> <n> <circuit> <record|-> <vec>` : after running the circuit along the record, is the vector the simulator's state?
+    Amplitudes are `.` (zero) or `0`..`7` (direction ω^j). -/
+def ampsCmd (toks : List String) : String :=
+  match toks with
+  | "unitary" :: little :: rest =>
+    (match parseTab rest with
+     | some (T, rows) =>
+       (match isUnitaryOf (little == "1") T (rows.map parseAmps) with
+        | none => "ok"
+        | some why => why)
+     | none => "bad-request")
+  | "state" :: little :: nS :: rest =>
+    (match nS.toNat?, parseCircuit rest with
+     | some n, some (c, [vs]) =>
+       (match circuitTableau c n with
+        | none => "not-unitary"
+        | some T =>
+          let v := parseAmps vs
+          if v.length != 2^n then "vector-length" else
+          if !(nonzero v) then "zero-vector" else
+          match T.zs.find? (fun s => !(stabilises n (little == "1") s v)) with
+          | some s => "not-stabilised-by " ++ s.str
+          | none => "ok")
+     | _, _ => "bad-request")
+  | "simstate" :: little :: nS :: rest =>
+    (match nS.toNat?, parseCircuit rest with
+     | some n, some (c, [recS, vs]) =>
+       let out := Run.ops { st := TState.init (max c.numQubits n) } (.follow (bitsOf recS)) c.unroll
+       (match out.err with
+        | some e => "err " ++ e
+        | none =>
+          if !out.ok then "record-impossible" else
+          let v := parseAmps vs
+          if v.length != 2^n then "vector-length" else
+          if !(nonzero v) then "zero-vector" else
+          let verdicts := (allLetters n).map fun ps =>
+            let P : PS := ⟨0, ps⟩
+            let P' : PS := ⟨0, ps ++ List.replicate (out.st.n - n) P1.I⟩
+            match zval (out.st.map P') with
+            | some false => (1, stabilises n (little == "1") P v, P)
+            | some true => (1, antiStabilises n (little == "1") P v, P)
+            | none => (0, true, P)
+          let fixed := verdicts.foldl (fun acc x => acc + x.1) 0
+          match verdicts.find? (fun x => !x.2.1) with
+          | some x => "expectation-differs-for " ++ x.2.2.str
+          | none => if fixed != 2^n then s!"state-entangled-with-hidden-qubits fixed={fixed}" else "ok")
+     | _, _ => "bad-request")
   | _ => "bad-request"
 
 def xorClosure (vs : List (List Bool)) : List (List Bool) :=
@@ -1503,6 +1561,7 @@ def answer (toks : List String) : String :=
   | "fsim" :: "m2d" :: rest => fsimM2d rest
   | "fsim" :: "dets" :: rest => fsimDets rest
   | "record" :: "run" :: rest => recordRun rest
+  | "amps" :: rest => ampsCmd rest
   | "demsem" :: "check" :: rest => demsemCheck rest
   | "demsem" :: "decomp" :: rest => demsemDecomp rest
   | "demsample" :: "check" :: rest => demsampleCheck rest
